@@ -16,7 +16,7 @@ import LitexModel.Generated.Keywords
   |------------------------------------------------------------------------|-----------------------------------|-------------------------------------------------|--------------------------------------|
   | namer.SignalNamespace.__init__/get_name: counts, sigs, `_n`, keyword seed | Core: Ns/getName, NsF/getNameFixed | getName_*, getNameFixed_*, name_not_reserved*   | M  getnames[_fixed], namespace[_fixed] |
   | get_name: ClockSignal/ResetSignal -> domain.clk/.rst, raises            | Emit: resolve, answersCd          | answersCd_resolved, answersCd_alias_iff, resolve_clk/rst | M  nscd (dict-typed clock_domains)  |
-  |   ... on the namespace `convert()` returns (`_ClockDomainList` has no .get) | -                              | -                                               | F  C02-clocksignal-getname           |
+  |   ... on the namespace `convert()` returns (`_ClockDomainList` has no .get) | -                              | -                                               | note (outside the property statement) |
   | namer._HierarchyNode/_build_hierarchy_tree/_determine_name_usage/_set_number_usage/_build_signal_name_dict_from_tree/DUID ranks | Tree: req/useName/elems/groupName | buildDict_perm/_nonempty/_legal | M  dict |
   | namer._build_signal_groups/_build_hierarchical_name (related chains)     | Tree: depthOf/groupOf/hierName    | buildDict_legal, dictList_eq_buildDict          | M  dict                              |
   | namer.build_signal_namespace                                            | Tree: namespaceAnswers[Fixed]     | namespace_*                                     | M  namespace, convert() end to end   |
@@ -30,13 +30,13 @@ import LitexModel.Generated.Keywords
   | verilog._generate_combinatorial_logic_sim: dict of targets (set order of list_targets) | -                  | -                                               | V  emission corpus (regular_comb=False) |
   | verilog._generate_synchronous_logic: `sorted(f.sync.items())`           | Emit: declOrder (domain names)    | same                                            | V  emission corpus (3 clock domains) |
   | verilog._generate_specials: `sorted(specials, key=duid)`                | Emit: duidOrder                   | duidOrder_perm_partial                          | M  duidorder                         |
-  | first-request order of get_name = iteration order of the Signal sets    | explicit input `reqs`             | (witness: suffixes swap)                        | F  C02-tie-order                     |
+  | first-request order of get_name = iteration order of the Signal sets    | explicit input `reqs`             | (witness: suffixes swap)                        | note (outside the property statement) |
   | memory.py: helper registers `<mem>_adr<n>` / `<mem>_dat<n>` via get_name | Emit: memHelpers, Obj.adr/.dat   | class_injective/_legal/_not_reserved, adrBase_inj, datBase_inj, adrBase_ne_datBase | M  helpers, classanswers |
   | memory.py: data file `<top>_<mem>.init`                                 | -                                 | -                                               | V  monitor data_file_failures        |
   | instance.py: instance identifier                                        | Emit: Obj.inst                    | class_*                                         | M  classanswers                      |
   | instance.py: `.PORT` / `.PARAM` names (the foreign module's name space; order = Instance.items, sorted by Migen) | - | -                                   | V  emission corpus                   |
   | Migen ClockDomain: `<cd>_clk` / `<cd>_rst` name_overrides                | Emit: cdClkBase/cdRstBase, Obj.cdClk/.cdRst | class_*                              | M  cdbase, classanswers              |
-  | hierarchy.py: `[CELL]` lines `sorted(specials, key=str)` (heap address)  | -                                 | -                                               | F  C02-hierarchy-order               |
+  | hierarchy.py: `[CELL]` lines `sorted(specials, key=duid)` (was `key=str`: heap address, fixed finding C02-hierarchy-order) | Emit: duidOrder | duidOrder_perm_partial | M  duidorder (hierarchy_tie) + probe + corpus |
   | expression.py                                                           | no set/dict iteration; the printer is C01's model | -                               | -                                    |
 -/
 /-
@@ -590,7 +590,7 @@ example :
   decide +kernel
 
 
-/-! ## What the first-request order does (NOT order-independent — reported finding C02-tie-order)
+/-! ## What the first-request order does (NOT order-independent; same design in the same context = same DUIDs = same order)
 
   The identifiers themselves depend on the order of the FIRST requests, which in `convert()` is the iteration
   order of the sets `ios` / `sigs - ios` inside `sorted(…, key=get_name)` (Signals hash by DUID, so that order is
